@@ -190,7 +190,7 @@ def run(tape, kind):
     if tape.chance('second_call', 1, 3):
         key = list(wl['objective'])[0]
         nxt = [wl['objective'][key][-1]] if key == 'thresholds' else \
-            [tape.choice('q2', [0.5, 0.7, 0.3])]
+            [tape.choice('q2', [0.5, 0.7, 0.3, 1.0])]
         # the continued call may ask for another population size
         n2 = tape.choice('n_samples_2', [wl['n_samples'], wl['n_samples'], wl['n_samples'] + 3,
                                          max(2, wl['n_samples'] - 2)])
